@@ -348,6 +348,12 @@ func (r *Reader) extractParagraph(p *pXML) Paragraph {
 	// Get paragraph properties
 	if p.PPr != nil {
 		para.Level = p.PPr.Lvl
+		// lvl runs from 0 to 8; the level is used to indent the paragraph
+		if para.Level < 0 {
+			para.Level = 0
+		} else if para.Level > maxBulletLevel {
+			para.Level = maxBulletLevel
+		}
 		para.Alignment = p.PPr.Algn
 
 		// Check for bullets
@@ -395,6 +401,9 @@ func (r *Reader) extractParagraph(p *pXML) Paragraph {
 }
 
 // extractTable extracts a table from a graphic frame.
+// maxBulletLevel is the deepest paragraph level of DrawingML (lvl 0..8).
+const maxBulletLevel = 8
+
 func (r *Reader) extractTable(tbl *tblXML) Table {
 	table := Table{
 		Columns: len(tbl.TblGrid.GridCol),
